@@ -48,6 +48,11 @@ PENDING_FINDINGS = {
         'girwriter.c write_callable_info spells g_arg_info_may_be_null as the legacy allow-none="1" for every direction; '
         'on a direction="out" parameter allow-none means OPTIONAL (scanner rule, girparser.c start_parameter), so the GIR '
         'g-ir-generate writes for a nullable out parameter says optional and no longer says nullable',
+    'compile:callback-member-swallows-function':
+        'girparser.c start_function (since b00e44e) turns a <callback> inside a union/boxed/interface field into a gpointer but '
+        'leaves ctx->current_typed pointing at that field; the next <function>/<method>/<constructor> met before another '
+        '<type> ends is stored as field->callback (and is missing from its container): FieldBlob.has_embedded_type is set with '
+        'a FunctionBlob behind it, g_type_info_get_interface hits g_assert_not_reached and the walker and g-ir-generate abort',
     'generate:boxed:crash':
         'g-ir-generate aborts on every typelib that has a <glib:boxed> entry: girwriter.c write_struct_info calls '
         'g_struct_info_get_copy_function on the GI_INFO_TYPE_BOXED info, whose g_return_val_if_fail (GI_IS_STRUCT_INFO) '
@@ -335,11 +340,11 @@ class Gen(object):
             a += ' throws="1"'
         return nm, '%s<callback%s>\n%s%s</callback>\n' % (indent, a, self.callable_body(indent + '  '), indent)
 
-    def field(self, indent, embedded, nm=None):
+    def field(self, indent, embedded, nm=None, visible=False):
         rng = self.rng
         nm = nm or self.name('fld')
         a = ' name="%s"' % nm
-        if rng.random() < 0.06:
+        if not visible and rng.random() < 0.06:
             a += self.HIDDEN        # a field stays, typed gpointer; its content is skipped
             self.stats.hit('hidden:field')
         if rng.random() < 0.5:
@@ -475,6 +480,23 @@ class Gen(object):
             self.stats.hit('deprecated:%s' % kind)
         return a
 
+    def plain_member_fields(self, n):
+        """the fields of a union / boxed type: now and then a function pointer member (stored as gpointer there).
+        Such a member is always followed by a visible data member: until the next <type> ends, girparser.c keeps
+        the callback field as `current_typed` and hands the NEXT function it meets to it as its embedded callback
+        (PENDING compile:callback-member-swallows-function; corpus case `union-callback-member-then-method`)."""
+        rng = self.rng
+        s = ''
+        last_cb = False
+        for i in range(n):
+            last_cb = rng.random() < 0.2
+            s += self.field('      ', last_cb, visible=not last_cb and i > 0)
+            if last_cb:
+                self.stats.hit('field:callback-in-union-or-boxed')
+        if last_cb:
+            s += self.field('      ', False, visible=True)
+        return s
+
     def boxed(self):
         """<glib:boxed>: BLOB_TYPE_BOXED, a StructBlob with plain fields and functions"""
         rng = self.rng
@@ -482,8 +504,7 @@ class Gen(object):
         a = ' glib:name="%s" c:symbol-prefix="%s" glib:type-name="T%s" glib:get-type="t_%s_get_type"' % (nm, nm.lower(), nm, nm.lower())
         a += self.deprecated(0.15)
         body = self.attrs('      ')
-        for i in range(rng.choice([0, 1, 2])):
-            body += self.field('      ', rng.random() < 0.2)
+        body += self.plain_member_fields(rng.choice([0, 1, 2]))
         for i in range(rng.choice([0, 1, 2])):
             body += self.function('      ', 'function', 't_' + nm.lower())[1]
         self.out.append(('boxed', nm, '    <glib:boxed%s>\n%s    </glib:boxed>\n' % (a, body)))
@@ -536,8 +557,7 @@ class Gen(object):
         if rng.random() < 0.15:
             a += ' copy-function="t_%s_copy" free-function="t_%s_free"' % (nm.lower(), nm.lower())
         body = self.attrs('      ')
-        for i in range(n_fields):
-            body += self.field('      ', rng.random() < 0.2)      # a function pointer member: stored as gpointer in a union
+        body += self.plain_member_fields(n_fields)
         for i in range(n_methods):
             body += self.function('      ', rng.choice(['method', 'function', 'constructor']), 't_' + nm.lower(), owner=nm)[1]
         self.out.append(('union', nm, '    <union%s>\n%s    </union>\n' % (a, body)))
@@ -1521,6 +1541,21 @@ def classify(check, d, expected_api):
     return '%s:%s:%s:%s' % (check, kname, item, missing)
 
 
+def _swallowing_member(api):
+    """the source GIR has a union / boxed member holding a <callback> that is not directly followed by a visible
+    data member (a <field> with a <type>/<array>): the input class of PENDING compile:callback-member-swallows-function"""
+    for e in api.entries:
+        if e.tag not in (q('union'), gq('boxed')):
+            continue
+        kids = [c for c in e if c.tag != q('attribute')]
+        for i, c in enumerate(kids):
+            if c.tag == q('field') and not api.skipped(c) and c.find(q('callback')) is not None:
+                nxt = kids[i + 1] if i + 1 < len(kids) else None
+                if nxt is None or nxt.tag != q('field') or api.skipped(nxt) or api.type_el(nxt) is None:
+                    return True
+    return False
+
+
 def judge(ctx, cnt, res, where):
     """All checks on one processed GIR.  Returns list of (key, text) problems found (for the search)."""
     problems = []
@@ -1546,7 +1581,10 @@ def judge(ctx, cnt, res, where):
     # (1)+(3): the public API against the source GIR
     if 'walk' in res:
         if res['walk_rc'] != 0:
-            fail('walk:crash', 'walking the public API of a compiled typelib ended with %r: %s' % (res['walk_rc'], res['walk_err'][-300:]))
+            key = 'walk:crash'
+            if _swallowing_member(exp_api) and 'g_type_info_get_interface: code should not be reached' in res['walk_err']:
+                key = 'compile:callback-member-swallows-function'
+            fail(key, 'walking the public API of a compiled typelib ended with %r: %s' % (res['walk_rc'], res['walk_err'][-300:]))
         else:
             diffs = diff_dumps(expected, res['walk'])
             cnt.hit('api-lines', len(res['walk']))
@@ -1566,6 +1604,8 @@ def judge(ctx, cnt, res, where):
             if (any(exp_api.entry_kind(e) == 4 for e in exp_api.entries)
                     and "g_struct_info_get_copy_function: assertion 'GI_IS_STRUCT_INFO (info)' failed" in res['gen_err']):
                 key = 'generate:boxed:crash'
+            elif _swallowing_member(exp_api) and 'g_type_info_get_interface: code should not be reached' in res['gen_err']:
+                key = 'compile:callback-member-swallows-function'
             fail(key, 'g-ir-generate ended with %r on a compiled typelib: %s' % (res['gen_rc'], res['gen_err'][-300:]))
         else:
             try:
@@ -1790,6 +1830,12 @@ def run(ctx):
             break
         model, hyps = answers[2 * idx], answers[2 * idx + 1]
         for h in hyp_names:
+            if h == 'union_fields_plain' and not hyps.get(h, True):
+                try:
+                    if _swallowing_member(Api(c[2], 'source')):
+                        continue        # reported by judge() as PENDING compile:callback-member-swallows-function
+                except Exception:
+                    pass
             if not hyps.get(h, True):
                 cnt.hit('hypothesis-unmet:' + h)
                 if cnt.counts['hypothesis-unmet:' + h] <= 2:
